@@ -115,9 +115,11 @@ def r1_search(ctx):
             out.append(NS(u))
             for i in vals:
                 if i != u:
-                    out.append(NM(i, u))
-                    for p in ps:
-                        out.append(D(i, u, p))
+                    # the scan position is the counter itself, or an offset counted from the start position
+                    for j in (u, T.mk_add(i, u)):
+                        out.append(NM(i, j))
+                        for p in ps:
+                            out.append(D(i, j, p))
         return out
 
     for cfg in ('dev', 'rel'):
